@@ -15,6 +15,28 @@ Proof.
   apply IH. simpl in Hj. lia.
 Qed.
 
+(* ------------------------------------------------------------ the fast record splitter is the specification *)
+Lemma split_at_fast_eq d : forall bs cur, split_at_fast d bs cur = split_at d bs cur.
+Proof.
+  induction bs as [|b bs IH]; intros cur; simpl.
+  - rewrite <- rev_alt. reflexivity.
+  - destruct (b =? d)%Z.
+    + rewrite IH. rewrite <- rev_alt. reflexivity.
+    + apply IH.
+Qed.
+
+Lemma strip_cr_fast_eq l : strip_cr_fast l = strip_cr l.
+Proof. unfold strip_cr_fast, strip_cr. rewrite <- rev_alt. destruct (rev l) as [|x r]; [reflexivity|]. rewrite <- rev_alt. reflexivity. Qed.
+
+Lemma records_fast_eq d cr bs : records_fast d cr bs = records d cr bs.
+Proof.
+  unfold records_fast, records. rewrite split_at_fast_eq. destruct (split_at d bs []) as [rs t].
+  f_equal. destruct cr; [|reflexivity]. apply map_ext. apply strip_cr_fast_eq.
+Qed.
+
+Lemma shard_tool_fast_eq keyhash n input : shard_tool_fast keyhash n input = shard_tool keyhash n input.
+Proof. unfold shard_tool_fast, shard_tool. rewrite records_fast_eq. reflexivity. Qed.
+
 Section ShardProofs.
   Variable keyhash : list Z -> N.
   Notation index := (index keyhash).
